@@ -3,6 +3,7 @@ package main
 import (
 	"encoding/json"
 	"runtime"
+	"sort"
 	"sync"
 
 	"github.com/verily-src/fhirpath-go/fhirpath"
@@ -149,4 +150,28 @@ func replayCall(call ccall, base0 tableSnap, forest *lib.Forest, res []lib.Resou
 	after["perm"] = lib.EvalOutcome(forest, permProbe, res, nil, nil)["k"]
 	o["after"] = after
 	return o, fe
+}
+
+// dumpFuncs writes the implementation's function tables (name, arities,
+// experimental flag), sorted by name: the stress menu covers every one of them.
+func dumpFuncs(path string) {
+	type fn struct {
+		Name string `json:"name"`
+		Min  int    `json:"min"`
+		Max  int    `json:"max"`
+		Exp  bool   `json:"exp"`
+	}
+	base := funcs.Clone()
+	all := funcs.AddExperimentalFuncs(funcs.Clone())
+	names := []string{}
+	for k := range all {
+		names = append(names, k)
+	}
+	sort.Strings(names)
+	w := newLineWriter(path)
+	for _, n := range names {
+		_, inBase := base[n]
+		w.Write(fn{n, all[n].MinArity, all[n].MaxArity, !inBase})
+	}
+	w.Close()
 }
